@@ -17,6 +17,11 @@
                           schedules in which [Probe p] directly follows [Read p].)
      Remove p     57/62/66 os.Remove(path): unconditional, unlinks whatever the path names now
      Wake p       79-83   the one-second timer fires; back to the top of the loop
+     Cancel p     80-81   ctx.Done() wins the select (SIGINT/SIGTERM cancel the build's context):
+                          Lock returns ctx.Err() WITHOUT making any file-system call; the process
+                          lives on (pc GaveUp) and never acts on the lock again.  The context is
+                          only consulted in that select: a cancellation that arrives anywhere else
+                          is observed at the next Waiting.
      Unlock p     88-90   os.Remove(path): unconditional
      Crash p      --      SIGKILL / os.Exit anywhere (cmds/build.go exits without Unlock on failure)
 
@@ -35,13 +40,15 @@ Inductive pc : Type :=
 | WantProbe (i : inode) (q : pid)        (* read PID q out of inode i, about to kill(q,0) *)
 | WantRemove (ex : option inode)         (* decided to os.Remove; ex = the inode it examined *)
 | Waiting                                (* in the select, timer pending *)
+| GaveUp                                 (* Lock() returned ctx.Err(): alive, holds nothing *)
 | Held (i : inode)                       (* Lock() returned nil *)
 | Done                                   (* Unlock() returned *)
 | Dead.
 
 Inductive event : Type :=
 | TryCreate (p : pid) | WritePid (p : pid) | Read (p : pid) | Probe (p : pid)
-| Remove (p : pid) | Wake (p : pid) | Unlock (p : pid) | Crash (p : pid).
+| Remove (p : pid) | Wake (p : pid) | Unlock (p : pid) | Crash (p : pid)
+| Cancel (p : pid).
 
 Record state : Type := mkState {
   lock    : option inode;            (* what the lock path names now *)
@@ -121,6 +128,11 @@ Definition step (s : state) (e : event) : option state :=
     | Dead => None
     | _ => Some (set_pc s p Dead)
     end
+  | Cancel p =>
+    match pcs s p with
+    | Waiting => Some (set_pc s p GaveUp)
+    | _ => None
+    end
   end.
 
 Fixpoint run (s : state) (evs : list event) : option state :=
@@ -131,7 +143,8 @@ Fixpoint run (s : state) (evs : list event) : option state :=
 
 Definition actor (e : event) : pid :=
   match e with
-  | TryCreate p | WritePid p | Read p | Probe p | Remove p | Wake p | Unlock p | Crash p => p
+  | TryCreate p | WritePid p | Read p | Probe p | Remove p | Wake p | Unlock p | Crash p
+  | Cancel p => p
   end.
 
 (* ---- who holds ---------------------------------------------------------------------- *)
@@ -213,7 +226,8 @@ Definition mk_init (dead : list pid) (lk : option (option pid)) : state :=
           (match lk with None => 0 | Some _ => 1 end)
           (fun p => if existsb (Nat.eqb p) dead then Dead else Idle).
 
-(* the one non-crash event process p can take *)
+(* the one non-crash event process p can take by itself ([Cancel p] is imposed from outside and
+   is enabled exactly when [next_event s p = Some (Wake p)]) *)
 Definition next_event (s : state) (p : pid) : option event :=
   match pcs s p with
   | Idle => Some (TryCreate p)
@@ -222,6 +236,7 @@ Definition next_event (s : state) (p : pid) : option event :=
   | WantProbe _ _ => Some (Probe p)
   | WantRemove _ => Some (Remove p)
   | Waiting => Some (Wake p)
+  | GaveUp => None
   | Held _ => Some (Unlock p)
   | Done => None
   | Dead => None
@@ -260,3 +275,9 @@ Definition w2_init : state := mk_init [2] (Some (Some 2)).
 Definition w2_sched : list event :=
   [TryCreate 0; TryCreate 1; Read 0; Read 1; Probe 0; Probe 1;
    Remove 0; TryCreate 0; WritePid 0; Remove 1; TryCreate 1; WritePid 1].
+
+(* NC: 0 holds; 1 contends, waits and is interrupted; 2 contends and waits (the interrupted
+   waiter left 0's file alone); 0 unlocks; 2 wakes up and acquires. *)
+Definition nc_sched : list event :=
+  [TryCreate 0; WritePid 0; TryCreate 1; Read 1; Probe 1; Cancel 1;
+   TryCreate 2; Read 2; Probe 2; Unlock 0; Wake 2; TryCreate 2; WritePid 2].
